@@ -51,24 +51,145 @@ Proof.
   - intros H. destruct (existsb (str_eqb (nm i)) T) eqn:E; [|reflexivity]. apply existsb_exists in E as (x & I & E). apply str_eqb_eq in E. subst x. contradiction.
 Qed.
 
-(* is_non_failing on a_i: true, in at least 2^(n-i) steps *)
-Lemma nfail_family n : forall k i T, i + k = n -> 1 <= i -> (forall j, i <= j -> ~ In (nm j) T) ->
-  exists s, nfail (rules_upto n) (S (S k)) T (PIdent sp0 (nm i)) = VOk true s /\ 2 ^ k <= s.
+(* is_non_failing on a_i: true, in at least 2^(n-i) steps, whenever the fuel allows n-i+2 nested rules *)
+Lemma nfail_family n : forall k i T f, i + k = n -> 1 <= i -> (forall j, i <= j -> ~ In (nm j) T) -> k + 2 <= f ->
+  exists s, nfail (rules_upto n) f T (PIdent sp0 (nm i)) = VOk true s /\ 2 ^ k <= s.
 Proof.
-  induction k as [|k IH]; intros i T E I1 HT.
-  - assert (i = n) by lia. subst i. cbn [nfail]. rewrite (proj2 (mem_nm n T)) by (apply HT; lia). cbn [negb].
-    rewrite lookup_fam by lia. cbn [rule_i pbody]. unfold body. rewrite Nat.ltb_irrefl. cbn. eexists; split; [reflexivity|lia].
-  - assert (Hlt : i < n) by lia.
+  induction k as [|k IH]; intros i T f E I1 HT Hf.
+  - assert (i = n) by lia. subst i. destruct f as [|[|f]]; try lia. exists 2. split; [|cbn; lia]. cbn [nfail].
+    rewrite (proj2 (mem_nm n T)) by (apply HT; lia). cbn [negb].
+    rewrite lookup_fam by lia. cbn [rule_i pbody]. unfold body. rewrite Nat.ltb_irrefl. reflexivity.
+  - assert (Hlt : i < n) by lia. destruct f as [|f]; [lia|].
     assert (HT' : forall j, S i <= j -> ~ In (nm j) (T ++ [nm i])).
     { intros j Hj X. apply in_app_or in X as [X|[X|[]]]; [apply (HT j); [lia|exact X]|apply nm_inj in X; lia]. }
-    destruct (IH (S i) (T ++ [nm i]) ltac:(lia) ltac:(lia) HT') as (s & Es & Ls).
-    remember (S (S k)) as f eqn:Ef.
+    destruct (IH (S i) (T ++ [nm i]) f ltac:(lia) ltac:(lia) HT' ltac:(lia)) as (s & Es & Ls).
+    exists (S (S (s + s))). split; [|cbn [Nat.pow]; lia].
+    destruct f as [|f']; [lia|].
+    remember (S f') as f eqn:Ef.
     cbn [nfail]. rewrite (proj2 (mem_nm i T)) by (apply HT; lia). cbn [negb]. rewrite lookup_fam by lia.
-    cbn [rule_i pbody]. unfold body. rewrite (proj2 (Nat.ltb_lt i n) Hlt).
-    (* the body is a_(i+1) ~ a_(i+1): both operands are evaluated *)
-    subst f. rewrite Es in *.
-    change (nfail (rules_upto n) (S (S k)) (T ++ [nm i]) (PSeq sp0 (PIdent sp0 (nm (S i))) (PIdent sp0 (nm (S i)))))
-      with (vtick (vbind (nfail (rules_upto n) (S (S k)) (T ++ [nm i]) (PIdent sp0 (nm (S i))))
-                         (fun b => if b then nfail (rules_upto n) (S (S k)) (T ++ [nm i]) (PIdent sp0 (nm (S i))) else VOk false 0))).
-    rewrite Es. cbn [vbind vtick]. rewrite Es. cbn [vtick]. eexists; split; [reflexivity|]. cbn [Nat.pow]. lia.
+    cbn [rule_i pbody]. unfold body. rewrite (proj2 (Nat.ltb_lt i n) Hlt). cbv beta iota.
+    subst f.
+    change (nfail (rules_upto n) (S f') (T ++ [nm i]) (PSeq sp0 (PIdent sp0 (nm (S i))) (PIdent sp0 (nm (S i)))))
+      with (vtick (vbind (nfail (rules_upto n) (S f') (T ++ [nm i]) (PIdent sp0 (nm (S i))))
+                         (fun b => if b then nfail (rules_upto n) (S f') (T ++ [nm i]) (PIdent sp0 (nm (S i))) else VOk false 0))).
+    assert (X : forall v : vres bool, v = VOk true s ->
+              vtick (vtick (vbind v (fun b : bool => if b then v else VOk false 0))) = VOk true (S (S (s + s)))) by (intros v ->; reflexivity).
+    apply X. exact Es.
+Qed.
+
+Lemma vbind_ok {A B} (v : vres A) (f : A -> vres B) b s : vbind v f = VOk b s ->
+  exists a n m, v = VOk a n /\ f a = VOk b m /\ s = n + m.
+Proof. destruct v as [a n| |]; cbn; try discriminate. destruct (f a) as [b' m| |] eqn:E; try discriminate. intros H; inversion H; subst. eauto 6. Qed.
+Lemma vtick_ok {A} (v : vres A) b s : vtick v = VOk b s -> exists n, v = VOk b n /\ s = S n.
+Proof. destruct v; cbn; try discriminate. intros H; inversion H; subst. eauto. Qed.
+
+(* with the repaired check_expr the left side is checked first: on the family it finds nothing *)
+Lemma check_none n fuel0 : forall k i T f x c, i + k = n -> 2 <= i -> (forall j, i <= j -> ~ In (nm j) (nm 1 :: T)) ->
+  check_expr (rules_upto n) fuel0 true f (nm 1 :: T) (PIdent sp0 (nm i)) = VOk x c -> x = None.
+Proof.
+  induction k as [|k IH]; intros i T f x c E I2 HT H; (destruct f as [|f]; [discriminate|]); cbn [check_expr] in H;
+    rewrite nm_eqb in H; replace (Nat.eqb 1 i) with false in H by (symmetry; apply Nat.eqb_neq; lia);
+    rewrite (proj2 (mem_nm i (nm 1 :: T))) in H by (apply HT; lia); cbn [negb] in H; rewrite lookup_fam in H by lia;
+    cbn [rule_i pbody] in H; unfold body in H.
+  - replace (i <? n) with false in H by (symmetry; apply Nat.ltb_ge; lia).
+    apply vtick_ok in H as (c' & H & _). destruct f; [discriminate|]. cbn in H. inversion H. reflexivity.
+  - replace (i <? n) with true in H by (symmetry; apply Nat.ltb_lt; lia).
+    apply vtick_ok in H as (c' & H & _). destruct f as [|f]; [discriminate|]. cbn [check_expr] in H.
+    destruct (rev ((nm 1 :: T) ++ [nm i])) as [|lst r0]; [discriminate|].
+    apply vtick_ok in H as (c2 & H & _).
+    assert (HT' : forall j, S i <= j -> ~ In (nm j) (nm 1 :: T ++ [nm i])).
+    { intros j Hj X. change (nm 1 :: T ++ [nm i]) with ((nm 1 :: T) ++ [nm i]) in X.
+      apply in_app_or in X as [X|[X|[]]]; [apply (HT j); [lia|exact X]|apply nm_inj in X; lia]. }
+    apply vbind_ok in H as (x1 & n1 & m1 & H1 & H2 & _).
+    assert (x1 = None) by (eapply (IH (S i) (T ++ [nm i]) (S f)); eauto; lia). subst x1.
+    apply vbind_ok in H2 as (b1 & n2 & m2 & _ & H2 & _). apply vbind_ok in H2 as (b2 & n3 & m3 & _ & H3 & _).
+    destruct b2; [|inversion H3; reflexivity].
+    eapply (IH (S i) (T ++ [nm i]) (S f)); eauto; lia.
+Qed.
+
+(* the left-recursion check of rule a_1 alone costs 2^n steps, with either version of check_expr *)
+Theorem validator_steps_exponential n fuel lrf tgf builtins ex errs s : n + 4 <= fuel ->
+  validate_ast (fam n) fuel lrf tgf builtins ex = VOk errs s -> 2 ^ n <= s.
+Proof.
+  intros Hf H. unfold validate_ast in H.
+  apply vbind_ok in H as (e1 & s1 & r1 & _ & H & ->).
+  apply vbind_ok in H as (e2 & s2 & r2 & _ & H & ->).
+  apply vbind_ok in H as (e3 & s3 & r3 & _ & H & ->).
+  apply vbind_ok in H as (e4 & s4 & r4 & H4 & _ & ->).
+  enough (2 ^ n <= s4) by lia. clear - Hf H4.
+  unfold fam, rules_upto in H4. replace (n + 2) with (S (S n)) in H4 by lia. rewrite <- cons_seq in H4. cbn [map lr_rules mem existsb] in H4.
+  change (rule_i (S (S n)) 1 :: map (rule_i (S (S n))) (seq 2 (S n))) with (rules_upto (S (S n))) in H4.
+  cbn [rule_i pname] in H4. rewrite lookup_fam in H4 by lia.
+  apply vbind_ok in H4 as (x & c & m & HC & _ & ->). enough (2 ^ n <= c) by lia.
+  cbn [rule_i pbody] in HC. unfold body in HC. replace (1 <? S (S n)) with true in HC by (symmetry; apply Nat.ltb_lt; lia).
+  destruct fuel as [|f]; [lia|]. cbn [check_expr rev app] in HC.
+  destruct (nfail_family (S (S n)) n 2 [nm 1] (S f)) as (s' & Es & Ls); try lia.
+  { intros j Hj [X|[]]. apply nm_inj in X. lia. }
+  destruct lrf.
+  - apply vtick_ok in HC as (c' & HC & ->). apply vbind_ok in HC as (x1 & n1 & m1 & H1 & H2 & ->).
+    assert (x1 = None).
+    { eapply (check_none (S (S n)) (S f) n 2 [] (S f)); [lia|lia| |exact H1].
+      intros j Hj [X|[]]. apply nm_inj in X. lia. }
+    subst x1. apply vbind_ok in H2 as (b1 & c1 & m2 & HN & _ & ->).
+    assert (c1 = s') by (rewrite Es in HN; inversion HN; reflexivity). lia.
+  - apply vtick_ok in HC as (c' & HC & ->). apply vbind_ok in HC as (b1 & c1 & m1 & HN & _ & ->).
+    assert (c1 = s') by (rewrite Es in HN; inversion HN; reflexivity). lia.
+Qed.
+
+(* ---- the size of the family is quadratic in n *)
+Fixpoint psize (n : pnode) : nat :=
+  match n with
+  | PStr _ s | PInsens _ s | PIdent _ s | PPushLiteral _ s => S (length s)
+  | PRange _ a b => S (length a + length b)
+  | PPeekSlice _ _ _ => 1
+  | PPosPred _ x | PNegPred _ x | POpt _ x | PRep _ x | PRepOnce _ x | PRepExact _ x _ | PRepMin _ x _ | PRepMax _ x _
+  | PRepMinMax _ x _ _ | PPush _ x => S (psize x)
+  | PNodeTag _ x t => S (psize x + length t)
+  | PSeq _ l r | PChoice _ l r => S (psize l + psize r)
+  end.
+(* characters needed to write the rules: names, literals, one per operator *)
+Definition rules_size (rs : list prule) : nat := fold_right (fun r acc => length (pname r) + psize (pbody r) + acc) 0 rs.
+
+Lemma rules_size_map n : forall l, (forall i, In i l -> i <= n) -> rules_size (map (rule_i n) l) <= length l * (3 * n + 6).
+Proof.
+  induction l as [|i l IH]; intros H; [cbn; lia|]. cbn [map rules_size fold_right length].
+  assert (Hi : i <= n) by (apply H; left; reflexivity).
+  assert (IHl : rules_size (map (rule_i n) l) <= length l * (3 * n + 6)) by (apply IH; intros; apply H; right; assumption).
+  unfold rules_size in IHl. cbn [rule_i pname pbody]. unfold body, nm. rewrite repeat_length.
+  destruct (Nat.ltb i n); cbn [psize]; rewrite ?repeat_length; cbn [length]; lia.
+Qed.
+Lemma fam_size n : rules_size (fam n) <= 3 * (n + 4) * (n + 4).
+Proof.
+  unfold fam, rules_upto. pose proof (rules_size_map (n + 2) (seq 1 (n + 2))) as H. rewrite seq_length in H.
+  assert (L : rules_size (map (rule_i (n + 2)) (seq 1 (n + 2))) <= (n + 2) * (3 * (n + 2) + 6)) by (apply H; intros i Hi; apply in_seq in Hi; lia).
+  nia.
+Qed.
+
+(* ---- an exponential outgrows every polynomial of a quadratic *)
+Lemma pow_le_mono_base a b k : a <= b -> a ^ k <= b ^ k.
+Proof. intros H. apply Nat.pow_le_mono_l. exact H. Qed.
+Lemma lin_lt_pow2 m : m < 2 ^ m.
+Proof. apply Nat.pow_gt_lin_r. lia. Qed.
+
+Lemma exp_beats_poly c k : exists n, c * (3 * (n + 4) * (n + 4)) ^ k < 2 ^ n.
+Proof.
+  (* n = m * (2k+1) with m large: 2^n = (2^m)^(2k+1) > m^(2k+1), and 3 (n+4)^2 <= D m^2 *)
+  set (e := 2 * k + 1).
+  set (D := 3 * (e + 4) * (e + 4)).
+  set (m := S (c * D ^ k)).
+  exists (m * e).
+  assert (Hm : 1 <= m) by (subst m; lia).
+  assert (B1 : 3 * (m * e + 4) * (m * e + 4) <= D * (m * m)).
+  { subst D. assert (m * e + 4 <= m * (e + 4)) by nia. nia. }
+  assert (B2 : (3 * (m * e + 4) * (m * e + 4)) ^ k <= D ^ k * m ^ (2 * k)).
+  { eapply Nat.le_trans; [apply Nat.pow_le_mono_l; exact B1|]. rewrite Nat.pow_mul_l.
+    rewrite <- (Nat.pow_2_r m). rewrite <- Nat.pow_mul_r. apply le_n. }
+  assert (B3 : m ^ e < 2 ^ (m * e)).
+  { rewrite Nat.pow_mul_r. apply Nat.pow_lt_mono_l; try (subst e; lia). apply lin_lt_pow2. }
+  assert (B4 : c * (D ^ k * m ^ (2 * k)) < m ^ e).
+  { subst e. replace (2 * k + 1) with (S (2 * k)) by lia. cbn [Nat.pow].
+    assert (P : 1 <= m ^ (2 * k)) by (apply Nat.neq_0_lt_0, Nat.pow_nonzero; lia).
+    assert (c * D ^ k < m) by (subst m; lia). nia. }
+  eapply Nat.le_lt_trans; [|exact B3]. eapply Nat.le_trans; [|apply Nat.lt_le_incl; exact B4].
+  apply Nat.mul_le_mono_l. exact B2.
 Qed.
